@@ -37,6 +37,18 @@ def api_witness(slice_, timeout):
         o = _overlapping(sp)
         if o:
             return {'state': 'counterexample', 'cex': {'w': kind}, 'detail': 'overlapping entities %r' % (o,), 'queries': 1}
+    elif kind == 'F37':
+        from recognizers_date_time import recognize_datetime
+        sp = _spans(recognize_datetime('x从明天', 'zh-cn', reference=datetime(2016, 11, 7)))
+        bad = [s for s in sp if s[1] < 0]
+        if bad:
+            return {'state': 'counterexample', 'cex': {'w': kind}, 'detail': 'entity with a negative start: %r' % (bad,), 'queries': 1}
+    elif kind == 'F37-overlap':
+        from recognizers_date_time import recognize_datetime
+        sp = _spans(recognize_datetime('明天三天后', 'zh-cn', reference=datetime(2016, 11, 7)))
+        o = _overlapping(sp)
+        if o:
+            return {'state': 'counterexample', 'cex': {'w': kind}, 'detail': 'overlapping entities %r' % (o,), 'queries': 1}
     return {'state': 'discharged', 'detail': 'witness no longer violates', 'queries': 1}
 
 
